@@ -26,7 +26,23 @@ let outcome = function
       let c = (match e with Conn.OutOfFuel -> "fuel" | Conn.OutOfBounds -> "oob" | Conn.AssertFailed -> "assert") in
       L [S c; S ""; vint 0; L (List.map vbytes ds)]
 
+(* chunks of a stream for a cut mask: bit i set = cut after byte i (the same convention as harness/cxx/conn_probe.cpp) *)
+let chunks_of_mask (s : string) (mask : int) : char list list =
+  let l = String.length s in
+  let res = ref [] and start = ref 0 in
+  for i = 0 to l - 1 do
+    if i = l - 1 || (mask lsr i) land 1 = 1 then begin
+      res := bytes_of (String.sub s !start (i + 1 - !start)) :: !res; start := i + 1 end
+  done;
+  List.rev !res
+
 let () =
+  (* conn_feed_cuts <p0p1> <stream> -> one outcome per cut mask 0 .. 2^(len-1)-1 *)
+  register "conn_feed_cuts" (function [p; s] ->
+      let (p0, p1) = pre p in
+      let s = str s in
+      let n = if s = "" then 1 else 1 lsl (String.length s - 1) in
+      L (List.init n (fun mask -> outcome (Conn.feed p0 p1 Conn.init (chunks_of_mask s mask)))) | _ -> failwith "arity");
   (* conn_feed <p0p1> [chunks]  ->  [status buf required [deliveries]] : OnDataReceived once per chunk from the initial state *)
   register "conn_feed" (function [p; cs] -> let (p0, p1) = pre p in outcome (Conn.feed p0 p1 Conn.init (chunks cs)) | _ -> failwith "arity");
   (* conn_feed_from <p0p1> <buf> <required> [chunks] : the same from an arbitrary state *)
